@@ -159,21 +159,46 @@ impl ColorSpace {
 impl ObjectWrite for ColorSpace {
     fn to_primitive(&self, update: &mut impl Updater) -> Result<Primitive> {
         match *self {
+            ColorSpace::DeviceGray => Ok(Primitive::name("DeviceGray")),
             ColorSpace::DeviceCMYK => Ok(Primitive::name("DeviceCMYK")),
             ColorSpace::DeviceRGB => Ok(Primitive::name("DeviceRGB")),
+            ColorSpace::Pattern => Ok(Primitive::name("Pattern")),
+            ColorSpace::Named(ref name) => Ok(Primitive::Name(name.0.clone())),
+            ColorSpace::Other(ref arr) => Ok(Primitive::Array(arr.clone())),
+            ColorSpace::CalGray(ref dict) => Ok(Primitive::Array(vec![Primitive::name("CalGray"), Primitive::Dictionary(dict.clone())])),
+            ColorSpace::CalRGB(ref dict) => Ok(Primitive::Array(vec![Primitive::name("CalRGB"), Primitive::Dictionary(dict.clone())])),
+            ColorSpace::CalCMYK(ref dict) => Ok(Primitive::Array(vec![Primitive::name("CalCMYK"), Primitive::Dictionary(dict.clone())])),
+            ColorSpace::Icc(ref stream) => Ok(Primitive::Array(vec![Primitive::name("ICCBased"), stream.to_primitive(update)?])),
             ColorSpace::Indexed(ref  base, hival, ref lookup) => {
                 let base = base.to_primitive(update)?;
                 let hival = Primitive::Integer(hival.into());
                 let lookup = if lookup.len() < 100 {
                     PdfString::new((**lookup).into()).into()
                 } else {
-                    Stream::new((), lookup.clone()).to_primitive(update)?
+                    // a stream has to be an indirect object
+                    update.create(Stream::new((), lookup.clone()))?.to_primitive(update)?
                 };
                 Ok(Primitive::Array(vec![Primitive::name("Indexed"), base, hival, lookup]))
             }
-            ref p => {
-                dbg!(p);
-                unimplemented!()
+            ColorSpace::Separation(ref name, ref alternate, ref tint) => {
+                Ok(Primitive::Array(vec![
+                    Primitive::name("Separation"),
+                    Primitive::Name(name.0.clone()),
+                    alternate.to_primitive(update)?,
+                    tint.to_primitive(update)?
+                ]))
+            }
+            ColorSpace::DeviceN { ref names, ref alt, ref tint, ref attr } => {
+                let mut arr = vec![
+                    Primitive::name("DeviceN"),
+                    names.to_primitive(update)?,
+                    alt.to_primitive(update)?,
+                    tint.to_primitive(update)?
+                ];
+                if let Some(attr) = attr {
+                    arr.push(Primitive::Dictionary(attr.clone()));
+                }
+                Ok(Primitive::Array(arr))
             }
         }
     }
